@@ -1493,3 +1493,13 @@ def length_guard_admits_what_was_written(ctx):
                       'some vectors the writer produced are refused, and the object they belong to no longer deserializes' % bad[:2],
                       'remaining.len() [- to_leb128_len(announced)] < announced', body.where(e.ln))
     ctx.floor(n, 1, 'length guards of bytes_de::read_vec')
+
+
+@rule('C13', 'deserialized-registry-behaves-like-the-original', configs=('default', 'p256'))
+def deserialized_registry_behaves_like_the_original(ctx):
+    """'using the deserialized object instead of the original ... changes no later outcome' / 'objects serialized by the pinned
+    release keep deserializing to working objects': the registry of user identifiers is a set — membership, insertion and removal do
+    not depend on the order in which the identifiers arrived from the wire (C17.registered: is_known = users.contains, add_user
+    inserts, the set is written by the listed functions only)."""
+    from . import c17
+    c17.registered(ctx)
